@@ -143,12 +143,17 @@ class Gen:
             o["pad"] = self.r.choice(p.get("pads", [40, 200]))
         if self.ver[k] == 5 and p.get("in_alias") and self.r.random() < p["in_alias"]:
             # inbound aliases: bind, reuse (empty topic), rebind, and the two invalid uses
-            kind = self.r.choice(["bind", "bind", "use", "use", "unbound", "toobig"])
+            kind = self.r.choice(["bind", "bind", "rebind", "use", "use", "unbound", "toobig"])
             bound = self.__dict__.setdefault("bound", {}).setdefault(k, {})
             if kind == "bind":
                 a = self.r.randint(1, p.get("alias_max", 2))
                 o["alias"] = a
                 bound[a] = t
+            elif kind == "rebind" and bound:
+                a = self.r.choice(sorted(bound))        # an alias that is bound already gets another topic
+                if bound[a] != t:
+                    o["alias"] = a
+                    bound[a] = t
             elif kind == "use" and bound:
                 a = self.r.choice(sorted(bound))
                 o.update(alias=a, notopic=True, t=bound[a])
@@ -156,11 +161,17 @@ class Gen:
                 o.update(alias=p.get("alias_max", 2), notopic=True) if p.get("alias_max", 2) not in bound else None
             elif kind == "toobig":
                 o["alias"] = p.get("alias_max", 2) + 1
+        ack_off = kw.pop("ack_off", False)
         o.update(kw)
+        if o.get("qos", 0) == 0:
+            o.pop("pid", None)
+            q = 0
         self.ops.append(o)
+        if ack_off:
+            return o
         if q == 2 and self.r.random() < p.get("p_rel", 1.0):
             self.ops.append(op("pubrel", k=k, pid=o["pid"]))
-        if p.get("ack", True):
+        if p.get("ack", True) and self.r.random() < p.get("p_ack", 1.0):
             for d, kk in list(self.conn.items()):
                 self.ops.append(op("ackall", k=kk))
         return o
@@ -199,6 +210,17 @@ def routing_history(rng, prof):
             g.disconnect(c)
         elif a == "tick":
             g.ops.append(op("tick", kind=rng.choice(prof.get("ticks", ["clients"])), dt=rng.choice(prof.get("dts", [0, 100]))))
+        elif a == "stall_burst":
+            # a subscriber stops reading while messages for it keep coming, then reads again
+            live = [x for x in clients if g.k(x)]
+            if len(live) >= 2:
+                c = rng.choice(live)
+                pubr = rng.choice([x for x in live if x != c])
+                g.ops.append(op("stall", k=g.k(c), kind="on"))
+                for _ in range(rng.randint(2, 6)):
+                    g.publish(pubr, qos=0, ack_off=True)
+                g.ops.append(op("stall", k=g.k(c), kind="off"))
+                g.ops.append(op("ping", k=g.k(c)))
         elif a == "foreign_unsub":
             # a client unsubscribes from a share filter it does not hold: same filter path as somebody's shared
             # subscription, another group (or its own id in that group) - nobody else's subscription may be affected
